@@ -1425,6 +1425,7 @@ def c19(ctx):
         tlc_must_hold(ctx, "AppRelay", "AppRelay_MC2.cfg")    # two requests on one backend
     tlc_must_fail(ctx, "AppRelay", "AppRelay_Attack_SharedResponseKey.cfg")
     tlc_must_fail(ctx, "AppRelay", "AppRelay_Attack_ShortRetention.cfg")
+    tlc_must_fail(ctx, "AppRelay", "AppRelay_Attack_ResponseStartTimeUnset.cfg")   # the code as it is (observation beyond the listed properties)
     cev, _ = drive(ctx, "apprelayc", timeout=3000)
     csegs = split_segments(cev)
     cfails = validate_segments(ctx, "AppRelayTrace", "AppRelayTrace.cfg", csegs, batch=10)
@@ -1473,6 +1474,20 @@ def c19(ctx):
         selftest(ctx, "AppProxyTrace", "AppProxyTrace.cfg", blobs[0], [("wrong-part-count", parts)])
     elif not fails:
         raise Inconclusive("relay cases missing")
+    # beyond the listed properties: the retention step of AppRelay (action Cron / operator CronOK) replayed on the
+    # real app. Reported in the evidence; never a verdict about C19 (the statement says nothing about retention).
+    try:
+        kev, _ = drive(ctx, "appcron", timeout=600)
+        ksegs = [[{"ev": "Reset", "seg": e.get("sig", e.get("ev")), "sig": e.get("sig", e.get("ev"))}, e] for e in kev if e.get("ev") in ("CronRun", "CronLive", "CronCase")]
+        before = (ctx.traces_validated, ctx.events_validated)
+        kf = validate_segments(ctx, "AppRelayTrace", "AppRelayTrace.cfg", ksegs, batch=100)
+        ctx.extra["retention_beyond_listed_properties"] = {
+            "cases": len(ksegs), "as_specified": len(ksegs) - len(kf),
+            "differs_from_AppRelay_Cron": [json.dumps({k: v for k, v in f[0][1].items() if k not in ("pid", "seq", "src")}, sort_keys=True)[:300] for f in kf][:8]}
+        if kf:
+            ctx.notes.append("retention replay (not a listed property): %d of %d recorded cases differ from the Cron action of AppRelay" % (len(kf), len(ksegs)))
+    except Inconclusive as ex:
+        ctx.notes.append("retention replay (not a listed property) did not run: %s" % ex)
 
 
 CHECKS = {"C17": c17, "C18": c18, "C19": c19, "C15": c15, "C16": c16, "C14": c14, "C11": c11, "C12": c12, "C13": c13, "C10": c10, "C08": c08, "C20": c20, "C02": c02, "C03": c03, "C09": c09, "C01": c01, "C04": c04, "C07": c07, "C05": c05, "C06": c06}
